@@ -31,25 +31,53 @@ GEN = os.path.join(vplib.COQDIR, "Gen")
 
 
 # =============================================================================== end to end
+SCALE_PROB = 0.4
+
+
 def scenario_list(ctx):
+    """(type, rows, cols, F, form, forced scale mode or None).  Magnitude scaling (calcore.draw_scale): in the
+    first pass over the grid the dims of every type cycle through the scale modes (4 of the 10 shapes of a type,
+    one per mode: every type x every mode in every tier); every other scenario is scaled with probability
+    SCALE_PROB, mode drawn by the scenario's own rng."""
     rng = ctx.rng
     reps = 2 if ctx.tier == "quick" else 10
     extra = 100 if ctx.tier == "quick" else 600
     out = []
     for rep in range(reps):
-        for typ in TYPES:
+        for ti, typ in enumerate(TYPES):
+            k = 0
             for r in range(1, 5):
                 for c in range(1, 5):
                     if dims_allowed(typ, r, c):
-                        out.append((typ, r, c, rng.randint(1, 3), None))
+                        forced = None
+                        # shapes 1, 4, 6, 8 of the type (offset by the type so that the modes meet different shapes)
+                        if rep == 0 and (k + ti) % 10 in (1, 4, 6, 8):
+                            forced = calcore.SCALE_MODES[({1: 0, 4: 1, 6: 2, 8: 3}[(k + ti) % 10] + ti) % 4]
+                        # the a/b mode needs standards given in a/b form
+                        out.append((typ, r, c, rng.randint(1, 3), "ab" if forced == "ab" else None, forced))
+                        k += 1
     for _ in range(extra):
         typ = rng.choice(TYPES)
         while True:
             r, c = rng.randint(1, 4), rng.randint(1, 4)
             if dims_allowed(typ, r, c):
                 break
-        out.append((typ, r, c, rng.randint(1, 4), rng.choice(["m", "ab", "mixed"])))
+        out.append((typ, r, c, rng.randint(1, 4), rng.choice(["m", "ab", "mixed"]), None))
     return out
+
+
+def make_scenario(seed, typ, r, c, F, form, forced, scaled=True):
+    """the scenario of one 64-bit seed; scaled=False gives its unscaled twin (same network, standards, DUT, history
+    variations: the scale is drawn last)"""
+    import random
+    rng = random.Random(seed)
+    sc = calcore.gen_scenario(rng, typ, r, c, F, form=form)
+    sc.hist_seed = rng.getrandbits(32)
+    sc.scale = None
+    want = rng.random() < SCALE_PROB or forced is not None
+    if want and scaled:
+        calcore.draw_scale(rng, sc, mode=forced)
+    return sc
 
 
 def run_one(ctx, exe, sc, noise=None, dump=False):
@@ -68,11 +96,11 @@ def run_one(ctx, exe, sc, noise=None, dump=False):
 def e2e(ctx, exe):
     import random
     specs = scenario_list(ctx)
+    seeds = []
     scen = []
-    for i, (typ, r, c, F, form) in enumerate(specs):
-        rng = random.Random(ctx.rng.getrandbits(64))
-        scen.append(calcore.gen_scenario(rng, typ, r, c, F, form=form))
-        scen[-1].hist_seed = rng.getrandbits(32)
+    for i, spec in enumerate(specs):
+        seeds.append(ctx.rng.getrandbits(64))
+        scen.append(make_scenario(seeds[-1], *spec))
     results = [None] * len(scen)
     with concurrent.futures.ThreadPoolExecutor(max_workers=min(8, vplib.NPROC)) as ex:
         futs = {ex.submit(run_one, ctx, exe, sc): i for i, sc in enumerate(scen)}
@@ -81,6 +109,19 @@ def e2e(ctx, exe):
     used = skipped = 0
     worst_apply = {}
     worst_terms = {}
+    # magnitude-scaled scenarios (calcore.draw_scale): counts and worst errors per mode
+    sc_n, sc_used, sc_skipped, sc_terms, sc_apply = {}, {}, {}, {}, {}
+    sc_types = {}
+    sc_kmin, sc_kmax = 0.0, 0.0
+    for sc in scen:
+        if sc.scale is not None:
+            md = sc.scale["mode"]
+            sc_n[md] = sc_n.get(md, 0) + 1
+            sc_types.setdefault(sc.typ, set()).add(md)
+            ex = sc.scale["exponents"]
+            ks = ex if isinstance(ex, list) else ([x for x in ex["standards"] + [ex["apply"]] if x is not None]
+                                                  if isinstance(ex, dict) else [ex])
+            sc_kmin, sc_kmax = min([sc_kmin] + ks), max([sc_kmax] + ks)
     covered = set()
     failures = []
     for i, sc in enumerate(scen):
@@ -108,10 +149,23 @@ def e2e(ctx, exe):
             numeric = all(p[0] in ("terms-residual", "apply-mismatch") for p in problems)
             if numeric and sens > 1e-9:
                 skipped += 1
+                if sc.scale is not None:
+                    sc_skipped[sc.scale["mode"]] = sc_skipped.get(sc.scale["mode"], 0) + 1
                 continue
             cls, detail = problems[0]
-            failures.append(({"kind": "e2e", "class": cls, "type": sc.typ, "rows": sc.r, "cols": sc.c},
-                             "%s %dx%d: %s" % (sc.typ, sc.r, sc.c, detail), sc, text, ""))
+            sig = {"kind": "e2e", "class": cls, "type": sc.typ, "rows": sc.r, "cols": sc.c}
+            if sc.scale is not None:
+                # the same scenario without the scaling: if it passes, the level of the raw measurements is
+                # what the library does not absorb (an absolute threshold, or a loss of accuracy that depends on level)
+                tw = make_scenario(seeds[i], *specs[i], scaled=False)
+                t3, rc3, out3, err3 = run_one(ctx, exe, tw)
+                pr3 = calcore.judge(tw, calcore.parse_output(out3))[0] if rc3 == 0 else [("harness", "exit %d" % rc3)]
+                sc.twin = "passes" if not pr3 else "fails too: %s" % (pr3[0],)
+                if not pr3:
+                    sig["scale"] = sc.scale["mode"]
+                detail += " [raw measurements scaled: mode %s, decimal exponents %s; sensitivity to a 1e-12 perturbation %.3g; " \
+                          "the unscaled twin of the scenario %s]" % (sc.scale["mode"], sc.scale["exponents"], sens, sc.twin)
+            failures.append((sig, "%s %dx%d: %s" % (sc.typ, sc.r, sc.c, detail), sc, text, ""))
             continue
         used += 1
         covered.add(key)
@@ -119,7 +173,13 @@ def e2e(ctx, exe):
         worst_terms[sc.typ] = max(worst_terms.get(sc.typ, 0.0), stats["terms"])
         if stats["apply"] is not None:
             worst_apply[sc.typ] = max(worst_apply.get(sc.typ, 0.0), stats["apply"])
-        if i % 17 == 0:
+        if sc.scale is not None:
+            md = sc.scale["mode"]
+            sc_used[md] = sc_used.get(md, 0) + 1
+            sc_terms[md] = max(sc_terms.get(md, 0.0), stats["terms"])
+            if stats["apply"] is not None:
+                sc_apply[md] = max(sc_apply.get(md, 0.0), stats["apply"])
+        if i % 17 == 0 or (sc.scale is not None and sc_used[sc.scale["mode"]] == 1 and sc.scale["mode"] in ("rows", "ab")):
             d = calcore.describe(sc)
             d["terms_residual"] = stats["terms"]
             d["apply_error"] = stats["apply"]
@@ -130,14 +190,24 @@ def e2e(ctx, exe):
     ctx.extra["e2e_skipped_ill_conditioned"] = skipped
     ctx.extra["e2e_worst_apply_rel_error"] = worst_apply
     ctx.extra["e2e_worst_terms_residual"] = worst_terms
+    ctx.extra["e2e_scaled_scenarios"] = sum(sc_n.values())
+    ctx.extra["e2e_scaled_by_mode"] = sc_n
+    ctx.extra["e2e_scaled_used_by_mode"] = sc_used
+    ctx.extra["e2e_scaled_skipped_ill_conditioned_by_mode"] = sc_skipped
+    ctx.extra["e2e_scaled_exponent_range"] = [sc_kmin, sc_kmax]
+    ctx.extra["e2e_scaled_worst_terms_residual_by_mode"] = sc_terms
+    ctx.extra["e2e_scaled_worst_apply_rel_error_by_mode"] = sc_apply
+    unscaled_types = [t_ for t_ in TYPES if not sc_types.get(t_)]
     allkeys = set((t, r, c) for t in TYPES for r in range(1, 5) for c in range(1, 5) if dims_allowed(t, r, c))
     missing = sorted(allkeys - covered)
-    ok = not failures and skipped <= len(scen) // 5 and not missing
+    ok = not failures and skipped <= len(scen) // 5 and not missing and not unscaled_types
     detail = ""
     if failures:
         detail = failures[0][1]
     elif missing:
         detail = "no well-conditioned passing scenario for %s" % (missing[:5],)
+    elif unscaled_types:
+        detail = "no magnitude-scaled scenario for %s" % (unscaled_types,)
     elif not ok:
         detail = "%d of %d draws ill-conditioned" % (skipped, len(scen))
     ctx.obligation("tie:e2e calibrate+apply vs E-term oracle (8 types x dims 1..4, all entry points)", ok, detail)
@@ -148,6 +218,7 @@ def e2e(ctx, exe):
             continue
         seen.add(k)
         ctx.violation(sig, what, {"scenario": calcore.describe(sc), "script": text[:200000],
+                                  "unscaled_twin": getattr(sc, "twin", None),
                                   "how": "harness/calcore_e2e.c < script (ASan/UBSan build)", "stderr": err[-3000:]})
     if missing and not failures:
         ctx.unproved("tie:e2e coverage", detail, "all type x dims scenarios")
@@ -525,6 +596,7 @@ COQ_FILES = ["Gen/LayoutGen.v", "Cal/LayoutProofs.v", "Cal/TermsModel.v", "Cal/A
              "Cal/SolveRecovers.v", "Cal/EndToEnd.v", "Cal/AssembleList.v",
              "Cal/LeakPhysical.v", "Cal/LeakPhysicalEx.v", "Cal/FillLoops.v", "Cal/FillLoopsProofs.v",
              "Cal/FillLoopsRecovers.v", "Cal/EndToEndLeak.v", "Cal/EndToEndLeakEx.v",
+             "Cal/LeakETerms.v", "Cal/EndToEndAll.v", "Cal/EndToEndDevice.v", "Cal/EndToEndFinal.v",
              "Properties_C01.v"]
 
 
